@@ -399,6 +399,14 @@ func runC07(r *Run, verifDir string) {
 								}
 							}
 						}
+						// x[:cap(x)]: length brought up to the capacity
+						if sl, isSl := e.(*ssa.Slice); isSl && sl.Low == nil && sl.Max == nil && sl.High != nil {
+							if cc, ok := sl.High.(*ssa.Call); ok {
+								if b, ok := cc.Call.Value.(*ssa.Builtin); ok && b.Name() == "cap" && sameSlice(cc.Call.Args[0], sl.X) {
+									continue
+								}
+							}
+						}
 						mk, isMk := e.(*ssa.MakeSlice)
 						if !isMk {
 							freshFull = false
